@@ -128,11 +128,12 @@ func parseFrame(b []byte, mode Mode, discard bool) *Frame {
 			if len(b)-p < 8 {
 				return f.trunc(p+4, "inside a skippable frame size")
 			}
-			n := int(le32(b[p+4:]))
+			n64 := int64(le32(b[p+4:])) // (64-bit: the harness also runs built for 32-bit platforms)
 			f.field("skiplen", p+4, 4, -1)
-			if len(b)-p-8 < n {
+			if int64(len(b)-p-8) < n64 {
 				return f.trunc(p+8, "inside a skippable frame")
 			}
+			n := int(n64)
 			f.field("skipdata", p+8, n, -1)
 			p += 8 + n
 			f.SkipFrames++
